@@ -6,6 +6,7 @@ From Qryn Require Import model.Sql model.Logql model.LogqlPlan model.LogqlMetric
 From Qryn Require Import model.LogqlMetricPost proofs.LogqlMetricPostProofs.
 From Qryn Require Import model.SqlEval model.LogqlSem model.LogqlMetricE2E proofs.LogqlMetricE2EProofs.
 From Qryn Require Import model.LogqlMetricFloat proofs.LogqlMetricFloatProofs.
+From Qryn Require Import model.SqlEvalAgg model.LogqlMetricExec proofs.LogqlMetricExecProofs.
 Import ListNotations.
 Open Scope Z_scope.
 
@@ -371,6 +372,25 @@ Theorem vector_aggregation_partial :
   metric_ref_def to_float quantile_o varpop stddevpop s c es = metric_ref to_float quantile_o varpop stddevpop s c es.
 Proof. exact metric_ref_def_grouped_proof. Qed.
 Print Assumptions vector_aggregation_partial.
+
+(* ---------- EXECUTION of the planned statement (model/SqlEvalAgg.v over C07's SqlEval; model/LogqlMetricExec.v) ----------
+   The check runs exec_verdict through the OCaml extraction on generated queries and databases; inside Coq, on the two corpus
+   witnesses: the statement planned for rate({a="b"} | drop c [5s]) over the streams {a="b",c="1"}, {a="b",c="2"} evaluates, under
+   both orders of ties, to the reference's one series {a="b"} with 2 lines / 5 s ... *)
+Theorem drop_witness_executed :
+  exec_verdict tie_id dk_script dk_ctx dk_db = 0 /\ exec_verdict tie_rev dk_script dk_ctx dk_db = 0 /\
+  option_map (map out_of_row) (exec_rows tie_id dk_script dk_ctx dk_db) = Some [Some ([("a", "b")]%string, 1700000000000000000, (2 # 5)%Q)].
+Proof. exact exec_drop_witness. Qed.
+Print Assumptions drop_witness_executed.
+
+(* ... and the statement planned for sum(rate({a="b"}[5s])) evaluates to one series per stream: the code's reference, not the
+   definition (exec_verdict_def = 1: finding agg-without-grouping-keeps-streams, replayed by execution) *)
+Theorem agg_without_grouping_executed :
+  exec_verdict tie_id ng_script dk_ctx dk_db = 0 /\ exec_verdict_def tie_id ng_script dk_ctx dk_db = 1 /\
+  option_map (map out_of_row) (exec_rows tie_id ng_script dk_ctx dk_db)
+    = Some [Some ([("a", "b"); ("c", "1")]%string, 1700000000000000000, (1 # 5)%Q); Some ([("a", "b"); ("c", "2")]%string, 1700000000000000000, (1 # 5)%Q)].
+Proof. exact exec_agg_without_grouping_witness. Qed.
+Print Assumptions agg_without_grouping_executed.
 
 (* ---------- float64: which value expressions are exact (model/LogqlMetricFloat.v says what is approximate) ---------- *)
 (* IEEE model: every operation returns rnd(exact result); the one fact used about rnd: integers of magnitude <= 2^53 are
